@@ -48,6 +48,7 @@ package service
 
 // "The example command never modifies a file that already exists": the service scaffold is marked SkipExist.
 //@ func exampleServiceFile
+//@   params genpkg _ svc apipkg
 //@   opt inline none
 //@   property C09
 //@   ensures* user.owned.file: result != nil ==> result.SkipExist
